@@ -253,6 +253,8 @@ def run(ctx):
                 history.append(["slice", [sl.start, sl.stop, sl.step]])
             elif op == "mask":
                 mk = np.array([r.random() < 0.6 for _ in range(nrows)], dtype=bool)
+                if r.random() < 0.12:
+                    mk[:] = False           # a filter that matches nothing: every later step works on a table without rows
                 if r.random() < 0.3 and nrows:
                     mk = mk.tolist()        # a mask given as a Python list of bools (the form the docstrings use)
                 fl, fe = (lambda: L[mk]), (lambda: E[mk])
